@@ -1,9 +1,107 @@
-(* C16 — permission patterns mean what the configuration guide says. (statements; proofs in Proofs/C16PathMatchProofs.v) *)
+(* C16 — permission patterns mean what the configuration guide says.
+   A right string is a ';'-separated list of path patterns, matched
+   case-insensitively, segment by segment; literal / '+' / trailing '*';
+   permitted iff some pattern matches; empty right permits nothing, except an
+   administrator's empty right, which is '*'.
+   [validate_go] / [match_go (compile _)] mirror provider/auth (user.go,
+   path_matcher.go as repaired for D31, utils/scan); [spec_permit] /
+   [spec_pattern] / [seg_match] are the documented language over segment
+   lists.  Statements only; proofs are in Proofs/C16PathMatchProofs.v.
+   No guard: the theorems hold for all byte strings (ASCII is an assumption of
+   the correspondence with Go only). *)
 From Coq Require Import ZArith List Bool.
-From V Require Import Bytes StrGo C16PathMatch.
+From V Require Import Bytes StrGo C16PathMatch C16PathMatchProofs.
 Import ListNotations.
 
+(* User.init + ValidatePermission = the documented language: every right string, admin flag, path *)
+Theorem C16_matcher_refines_spec : forall admin access path,
+  validate_go admin access path = spec_permit admin access path.
+Proof. exact matcher_refines_spec. Qed.
+Print Assumptions C16_matcher_refines_spec.
+
+(* NewPathMatcher(mask).Match(path) on its own *)
+Theorem C16_pattern_refines_spec : forall mask path,
+  match_go (compile mask) path = spec_pattern mask path.
+Proof. exact matcher_is_spec. Qed.
+Print Assumptions C16_pattern_refines_spec.
+
+(* what the segment-list matcher means: the four clauses of the statement *)
+Theorem C16_spec_meaning : forall pat path, seg_match pat path = true <-> Matches pat path.
+Proof. exact seg_match_meaning. Qed.
+Print Assumptions C16_spec_meaning.
+
+(* a trailing '*' matches zero or more remaining segments *)
+Theorem C16_open_pattern_meaning : forall (pre path : list bytes),
+  seg_match (pre ++ [([STAR] : bytes)]) path = true <->
+  exists front rest, path = front ++ rest /\ Forall2 seg_ok pre front.
+Proof. exact open_pattern_meaning. Qed.
+Print Assumptions C16_open_pattern_meaning.
+
+(* without trailing '*': segment-wise agreement over the whole path ... *)
+Theorem C16_closed_pattern_meaning : forall (pat path : list bytes),
+  is_star (last pat []) = false ->
+  (seg_match pat path = true <-> Forall2 seg_ok pat path).
+Proof. exact closed_pattern_meaning. Qed.
+Print Assumptions C16_closed_pattern_meaning.
+
+(* ... hence only paths with the same number of segments *)
+Theorem C16_closed_pattern_same_length : forall (pat path : list bytes),
+  is_star (last pat []) = false -> seg_match pat path = true -> length pat = length path.
+Proof. exact closed_pattern_same_length. Qed.
+Print Assumptions C16_closed_pattern_same_length.
+
+(* '*' alone matches everything *)
+Theorem C16_star_alone_matches_all : forall path, seg_match [[STAR]] path = true.
+Proof. exact star_alone_matches_all. Qed.
+Print Assumptions C16_star_alone_matches_all.
+
+(* permitted exactly when at least one pattern of the relevant right matches *)
+Theorem C16_permit_iff_some_item : forall admin rt path,
+  spec_permit admin rt path = true <->
+  exists item, In item (spec_items (spec_right admin rt)) /\
+               Matches (segments item) (segments (trim_space path)).
+Proof. exact permit_iff_some_item. Qed.
+Print Assumptions C16_permit_iff_some_item.
+
+(* an empty right permits nothing, except that an administrator's empty right is '*' *)
+Theorem C16_empty_right_permits_nothing : forall path, validate_go false [] path = false.
+Proof. intros path. rewrite matcher_refines_spec. exact (empty_right_permits_nothing path). Qed.
+Print Assumptions C16_empty_right_permits_nothing.
+
+Theorem C16_admin_empty_right_is_star : forall path, validate_go true [] path = true.
+Proof. intros path. rewrite matcher_refines_spec. exact (admin_empty_right_is_star path). Qed.
+Print Assumptions C16_admin_empty_right_is_star.
+
+(* the oracle applied to the implementation's answers accepts the model on every case ... *)
+Theorem C16_model_passes : forall c, ok_case c (enc_answers (run_case c)) = true.
+Proof. exact model_passes_oracle. Qed.
+Print Assumptions C16_model_passes.
+
+(* ... and accepts only the documented answer for every path of the case *)
+Theorem C16_oracle_sound : forall c obs, ok_case c obs = true -> obs = enc_answers (spec_case c).
+Proof. exact oracle_sound. Qed.
+Print Assumptions C16_oracle_sound.
+
+(* D31: NewPathMatcher before the repair refused the path "/a /b" under the right "/a /b" *)
+Theorem C16_prefix_matcher_refuted :
+  exists access path,
+    right_blank_edges access = true /\
+    spec_permit false access path = true /\
+    validate_go_prefix false access path = false.
+Proof. exact prefix_matcher_refuted. Qed.
+Print Assumptions C16_prefix_matcher_refuted.
+
+(* and was right for every right without a blank-edged pattern segment *)
+Theorem C16_prefix_matcher_right_elsewhere : forall admin access path,
+  right_blank_edges (spec_right admin access) = false ->
+  validate_go_prefix admin access path = spec_permit admin access path.
+Proof. exact prefix_matcher_right_elsewhere. Qed.
+Print Assumptions C16_prefix_matcher_right_elsewhere.
+
+(* non-vacuity: right "/a/+/c/*" permits "/A/b/C/d", refuses "/a/c"; "/x; /a /B" permits " /a /b/ " *)
 Example C16_nonvacuous :
   validate_go false [47;97;47;43;47;99;47;42] [47;65;47;98;47;67;47;100] = true /\
-  spec_permit false [47;97;47;43;47;99;47;42] [47;97;47;99] = false.
+  validate_go false [47;97;47;43;47;99;47;42] [47;97;47;99] = false /\
+  validate_go false [47;120;59;32;47;97;32;47;66] [32;47;97;32;47;98;47;32] = true /\
+  right_blank_edges [47;97;47;43;47;99;47;42] = false.
 Proof. vm_compute. auto. Qed.
